@@ -61,6 +61,9 @@ pub fn roundtrip_failure(f: Fmt, nd: &ND) -> Option<String> {
 }
 
 fn check(ctx: &mut Ctx, f: Fmt, nd: &ND, family: &str) {
+    // something fails on this thread first (a rejected input, a refused mutation, a caught panic
+    // inside the library): what it leaves behind must not reach the round trip that follows
+    something_fails_first(ctx.report.evaluations as usize);
     ctx.report.eval();
     let canon = nd.canon();
     let nontrivial = !(matches!(nd, ND::Term(t) if t.kids.is_empty()));
@@ -325,6 +328,25 @@ pub fn run(ctx: &mut Ctx) {
             }
         }
     }
+    // (7) many threads at once in format + parse (two per core), on values that hold alone
+    if ctx.shard < 4 {
+        let base = base_atoms(&["A", "B"]);
+        let mut cases: Vec<(Fmt, ND)> = vec![];
+        for f in ALL_FMT {
+            let pick = universe_over(&base, 2, false);
+            let step = (pick.len() / 40).max(1);
+            cases.extend(pick.into_iter().step_by(step).take(40).enumerate().map(|(i, t)| (f, wrap_rotating(t, i + ctx.shard))));
+            cases.extend(adversarial_cases(f).into_iter().step_by(97).take(8).map(|nd| (f, nd)));
+            // (many distinct numbers: a shared table of number texts has to evict)
+            cases.extend((0..120usize).map(|i| {
+                let x = (i * 3 + ctx.shard) as f64;
+                let sent = SD { term: TD::word("A"), punct: PunctD::Judgement, stamp: StampD::Fixed(i as isize - 60), truth: vec![x / 997.0, (x + 1.0) / 1009.0] };
+                (f, ND::Task(KD { sent, budget: vec![x / 1013.0, (x + 2.0) / 1019.0, (x + 3.0) / 1021.0] }))
+            }));
+        }
+        let rounds = if ctx.thorough { 60 } else { 6 };
+        concurrent_family(ctx, "C01", "format-then-parse", cases, rounds, |c| roundtrip_failure(c.0, &c.1));
+    }
     ctx.report.note(
         "rule",
         "a case = (format, value description); non-trivial = the value is not a bare atom term; distinct = distinct (format, canonical form)",
@@ -332,6 +354,10 @@ pub fn run(ctx: &mut Ctx) {
 }
 
 pub fn replay(ctx: &mut Ctx, d: &J) -> Option<()> {
+    if d.get("concurrent").is_some() {
+        super::rerun_fixed(ctx);
+        return Some(());
+    }
     let f = fmt_of(d)?;
     if let Some(label) = jstr(d, "extreme") {
         let nd = wrap_rotating(extreme_from_label(&label)?, d.get("wrap")?.as_i128()? as usize);
